@@ -108,6 +108,11 @@ class LoggedBytesIO(io.BytesIO):
         self.log.append(("read", n, len(out)))
         return out
 
+    def readinto(self, b):
+        n = super().readinto(b)
+        self.log.append(("read", len(b), n))
+        return n
+
 
 class ConcreteFaultStream(io.BytesIO):
     def __init__(self, data, fault_at, mode, short_by=1):
@@ -441,9 +446,23 @@ def _witness(run, ctx, res):
     got_checks = [lab for lab, c, _ in cctx.checks]
     if outcome != "ok" or got != expected or got_checks != exp_checks:
         res["witness_bad"].append({"assignment": assignment, "symbolic": _short(expected), "concrete": _short(got),
-                                   "outcome": outcome, "labels_sym": exp_checks[:12], "labels_conc": got_checks[:12]})
+                                   "outcome": outcome, "labels_sym": exp_checks[:12], "labels_conc": got_checks[:12],
+                                   "diff": _first_diff(expected, got, exp_checks, got_checks)})
     else:
         res["witness_ok"] += 1
+
+
+def _first_diff(expected, got, exp_checks, got_checks):
+    """Where the symbolic run and its concrete replay first part ways (for the harness-error report)."""
+    for i, (e, g) in enumerate(zip(expected, got)):
+        if e != g:
+            return f"observation {i}: symbolic {e!r:.300} / concrete {g!r:.300}"
+    if len(expected) != len(got):
+        return f"{len(expected)} symbolic observations / {len(got)} concrete"
+    for i, (e, g) in enumerate(zip(exp_checks, got_checks)):
+        if e != g:
+            return f"check {i}: symbolic {e!r} / concrete {g!r}"
+    return f"{len(exp_checks)} symbolic checks / {len(got_checks)} concrete"
 
 
 def _short(x):
